@@ -50,6 +50,9 @@ POOLS = {
     "b": [True, False], "d": [None, None, "2020-01-01", "2020-01-02", "1969-12-31"],
     "t": [None, "2020-01-01T00:00:00.000001", "2020-01-01T12:00:00", "1969-12-31T23:59:59"],
     "f32": [gen.NAN, 0.0, 1.0, 2.5, -3.0], "i32": [0, 1, 2, -1, 5],
+    # nanosecond timestamps (what from_pandas / read_csv hand over), neighbours within one microsecond
+    "tn": [None, "2020-01-01T00:00:00.000000001", "2020-01-01T00:00:00.000000002", "2020-01-01T00:00:00.000001",
+           "1969-12-31T23:59:59.999999999", "2020-01-01T12:00:00"],
 }
 
 
@@ -61,7 +64,7 @@ def _plan(draw, max_len, narrow=True):
     # double the JIT warm-up of the quick tier; the R21 witness replay runs in both tiers.
     h = draw(st.sampled_from(ALL))
     numeric = ["f", "f", "f", "i", "i", "b"] + (["f32", "i32"] if narrow else [])
-    kind = draw(st.sampled_from(numeric + ["d", "d", "t", "t"] if h in ORD else numeric))
+    kind = draw(st.sampled_from(numeric + ["d", "d", "t", "t", "tn"] if h in ORD else numeric))
     n = draw(st.one_of(st.sampled_from([1, 2]), st.integers(1, max_len)))
     pool = POOLS[kind]
     if draw(st.booleans()):
@@ -94,8 +97,18 @@ def _plan(draw, max_len, narrow=True):
             weighted = [v for j, v in enumerate(nn if b % 2 else nn[::-1]) for _ in range(j + 1)]
             vals = [weighted[(i * a) % len(weighted)] for i in range(n)]
     args = {}
-    if h not in ("all", "any") and draw(st.integers(0, 2)):
+    keepna_focus = h in ("median", "quantile") and kind == "f" and draw(st.integers(0, 2)) == 0
+    if keepna_focus:
+        # order statistics with the missing values kept: groups of 3 .. 9 finite values with a NaN somewhere in the
+        # middle (a partition-based kernel must still notice it)
+        n = draw(st.integers(3, 9))
+        vals = [draw(st.sampled_from([gen.NAN, 5.0, 13.0, 7.0, 1.0, 9.5, 2.0])) for _ in range(n)]
+        groups = [draw(st.integers(0, 1)) for _ in range(n)]
+        args["drop_na"] = False
+    elif h not in ("all", "any") and draw(st.integers(0, 2)):
         args["drop_na"] = draw(st.booleans())
+        if draw(st.integers(0, 3)) == 0:
+            args["_flagkind"] = draw(st.sampled_from(["np", "int"]))
     if h == "nth":
         sizes = sorted({groups.count(g) for g in set(groups)} | {n})
         edges = [e for k in sizes for e in (-k - 1, -k, -1, 0, k - 1, k)]
@@ -130,7 +143,10 @@ def nontrivial(plan):
 
 
 def _helper(plan):
-    a = dict(plan["args"])
+    a = {k: v for k, v in plan["args"].items() if k != "_flagkind"}
+    if plan["args"].get("_flagkind") and "drop_na" in a:
+        # the flag as a NumPy bool or 0 / 1 instead of a Python bool
+        a["drop_na"] = {"np": np.bool_(a["drop_na"]), "int": int(a["drop_na"])}[plan["args"]["_flagkind"]]
     f = getattr(di, plan["helper"])
     if plan["helper"] == "nth":
         return f("x", a.pop("index"), **a)
@@ -452,8 +468,9 @@ def _r22(plan, v):
     if "steps" in plan or plan["helper"] not in ("median", "quantile") or not _is_value_or_na_diff(v):
         return False
     dn = plan["args"].get("drop_na", True)
+    # (NaN with drop_na=False: only the median disagrees on the pinned tree - np.quantile answers NaN on both paths)
     return _group_has(plan, lambda vs: any(isinstance(x, float) and abs(x) == gen.INF for x in vs)
-                      or (not dn and any(_isna(plan, x) for x in vs)))
+                      or (not dn and plan["helper"] == "median" and any(_isna(plan, x) for x in vs)))
 
 
 def _r23(plan, v):
